@@ -8,7 +8,7 @@ package main
 // Preconditions: a decoded tile matrix set (every matrix has an origin and a positive cell size), a non-empty id
 // list whose deepest level is at most 32, and - in case the shape is accepted - sane magnitudes of matrix 0
 // (see macro indexable, all but its clause about variable widths, which validation itself must establish).
-//@ macro saneRoot(tms, id) = 0 <= id && 1 <= tms.TileMatrices[0].TileWidth && tms.TileMatrices[0].TileWidth <= 1099511627776 && tmLevel(tms, id) <= 32
+//@ macro saneRoot(tms, id) = hasKey(tms.TileMatrices, 0) ==> 0 <= id && 1 <= tms.TileMatrices[0].TileWidth && tms.TileMatrices[0].TileWidth <= 1099511627776 && tmLevel(tms, id) <= 32
 //@     && bbOK(tms) && bbMaxX(tms) - bbMinX(tms) >= pow2(tmLevel(tms, id))
 //@ func validateTileMatrixSet
 //@   prelude arith tmsaxis strings
